@@ -11,12 +11,13 @@ CONSTANTS
   Prog <- MC_Prog
   KeyRank <- MC_KeyRank
   Root <- MC_Root
-  CandU <- MC_CandU_edge6
+  CandU <- MC_CandU_edge
   AbortSets <- MC_AbortSets_one
   MaxTicks = 4
   MaxCands = 2
   MaxCandsA = 1
   MaxAborts = 0
+  MaxFails = 0
   MaxJumps = 0
   PreNames = {"hub"}
   Export = TRUE
